@@ -110,6 +110,24 @@ func init() {
 		// for sort.Slice one of the permitted results). The swaps are ordinary writes to the slice.
 		"sort.SliceStable": sortSliceModel,
 		"sort.Slice":       sortSliceModel,
+		// sync.Map as an association list per Map object (key equality as for interfaces)
+		"(*sync.Map).Load": func(x *Exec, fr *frame, fn *ssa.Function, a []Value) Value {
+			if v, ok := x.syncMapFind(a[0], a[1]); ok {
+				return Tuple{v, x.ts.tTrue}
+			}
+			return Tuple{Iface{}, x.ts.tFals}
+		},
+		"(*sync.Map).Store": func(x *Exec, fr *frame, fn *ssa.Function, a []Value) Value {
+			x.syncMapPut(a[0], a[1], a[2])
+			return nil
+		},
+		"(*sync.Map).LoadOrStore": func(x *Exec, fr *frame, fn *ssa.Function, a []Value) Value {
+			if v, ok := x.syncMapFind(a[0], a[1]); ok {
+				return Tuple{v, x.ts.tTrue}
+			}
+			x.syncMapPut(a[0], a[1], a[2])
+			return Tuple{a[2], x.ts.tFals}
+		},
 		"fmt.Sprint": func(x *Exec, fr *frame, fn *ssa.Function, a []Value) Value {
 			args := sliceVals(a[0])
 			var out []*Term
@@ -468,4 +486,40 @@ func sortSliceModel(x *Exec, fr *frame, fn *ssa.Function, a []Value) Value {
 		}
 	}
 	return nil
+}
+
+type syncMapEntry struct{ k, v Value }
+
+func (x *Exec) syncMapKey(m Value) string { return fmt.Sprintf("syncmap:%p", m.(Ptr).C) }
+
+func (x *Exec) syncMapFind(m, k Value) (Value, bool) {
+	es, _ := x.side[x.syncMapKey(m)].([]syncMapEntry)
+	for _, e := range es {
+		eq := x.ifaceEq(x.asIface(e.k), x.asIface(k))
+		if eq.IsConst() {
+			if eq.C == 1 {
+				return e.v, true
+			}
+			continue
+		}
+		if x.branch(eq, "syncmap-key") {
+			return e.v, true
+		}
+	}
+	return nil, false
+}
+
+func (x *Exec) syncMapPut(m, k, v Value) {
+	key := x.syncMapKey(m)
+	es, _ := x.side[key].([]syncMapEntry)
+	for i, e := range es {
+		eq := x.ifaceEq(x.asIface(e.k), x.asIface(k))
+		if (eq.IsConst() && eq.C == 1) || (!eq.IsConst() && x.branch(eq, "syncmap-key")) {
+			ne := append([]syncMapEntry(nil), es...)
+			ne[i].v = v
+			x.side[key] = ne
+			return
+		}
+	}
+	x.side[key] = append(append([]syncMapEntry(nil), es...), syncMapEntry{k, v})
 }
